@@ -192,6 +192,40 @@ def run(tier, seed):
                         bad(f"{cn}.update_from_nplike", dest_dtype=dt, source_dtype=str(sdt), layout=lname, offset=o, problem=prob)
                     elif len(samples) < 3 and lname == "F2d" and dt != sdt:
                         samples.append({"class": cn, "primitive": "update_from_nplike", "dest_dtype": dt, "source_dtype": str(sdt), "layout": lname, "offset": o})
+    # ---- the scalar helpers (NumpyScalar._to_buffer / _from_buffer) on memory that held something else: exactly the field's item size is
+    # written, whatever python or numpy number type the value arrives in (narrower, wider, same kind or not), and it reads back converted
+    kinds = ["Int8", "Int16", "Int32", "Int64", "UInt8", "UInt16", "UInt32", "UInt64", "Float32", "Float64"]
+    for cls in classes:
+        cn = cls.__name__
+        for kn in kinds:
+            T_ = getattr(X, kn)
+            dt = T_._dtype
+            for src_dt in ("int8", "int16", "int32", "int64", "uint8", "uint16", "uint32", "float32", "float64", None):
+                for raw in (-2, 7, 3):
+                    if src_dt is None:
+                        val = raw
+                    else:
+                        sd = np.dtype(src_dt)
+                        if sd.kind == "u" and raw < 0:
+                            continue
+                        val = sd.type(raw)
+                    if dt.kind == "u" and raw < 0:
+                        continue
+                    b = cls(capacity=40, context=ctx)
+                    before = poison(b)
+                    o = 11
+                    try:
+                        T_._to_buffer(b, o, val)
+                        got = buf_bytes(b)
+                        want = dt.type(raw).tobytes()
+                        ok = got == before[:o] + want + before[o + dt.itemsize:] and T_._from_buffer(b, o) == dt.type(raw)
+                        prob = "the field's bytes are not the encoding of the converted value, or bytes outside the field changed"
+                    except Exception as e:  # noqa
+                        ok, prob = False, f"raised {type(e).__name__}: {e}"
+                    evals += 1
+                    distinct.add(("scalar", cn, kn, src_dt, raw))
+                    if not ok:
+                        bad(f"{cn}.scalar_to_buffer", field=kn, value_type=str(src_dt or "python int"), value=raw, offset=o, problem=prob)
     # ---- large transfers: sizes around the integer constants that occur in the buffer modules' source (block sizes, thresholds) and around
     # powers of two -- the small-scope enumeration above cannot reach a size-dependent code path
     sizes = sorted(boundary_sizes(tier))
